@@ -409,6 +409,9 @@ def gen(repo):
         tree, _ = parse_file(repo, rel)
         fit = body_nodoc(find_func(find_class(tree, cls), fitname))
         opts = solver_options(fit)
+        init_src = [ast.unparse(x).split("\n")[0] for x in body_nodoc(find_func(find_class(tree, cls), "__init__"))]
+        out.append("(* the constructor, statement by statement (first line of each statement) *)")
+        out.append("Definition %s_init_statements : list string :=\n  [%s].\n" % (pfx, ";\n   ".join('"%s"%%string' % x.replace('"', "'") for x in init_src)))
         out.append("(* options the fit routine itself hands to the SVD back-ends, in source order *)")
         out.append("Definition %s_solver_options : list (string * string * string) :=\n  [%s].\n"
                    % (pfx, ";\n   ".join('("%s"%%string, "%s"%%string, "%s"%%string)' % (k, key, val.replace('"', "'")) for k, key, val in opts)))
